@@ -43,8 +43,8 @@ type histCfg struct {
 }
 
 var histCfgs = []histCfg{
-	{"fs", "fs", "fs", "fs", 6, 8},
-	{"bof", "bof", "bof", "bof", 5, 7},
+	{"fs", "fs", "fs", "fs", 5, 7},
+	{"bof", "bof", "bof", "bof", 5, 6},
 	{"fs-open+bof-write", "fs", "bof", "fs", 4, 6},
 	{"bof-open+fs-write", "bof", "fs", "bof", 4, 6},
 }
